@@ -110,8 +110,12 @@ def gen_ds(rng, mode, BASES, MARKS, OTTAGS):
         ax = axes[i % len(axes)]
         ru["conds"] = [[ax[1], 600, 700]] if ax[0] == "wght" else [[ax[1], 75, 80]]
     fd = {"glyphs": [glyphs[g] for g in order], "kerning": kerning, "groups": groups, "features": fea}
+    # masters = per-master builds (compileInterpolatable*FromDS); vf = variable font with compatible master features (the
+    # features are compiled ONCE, by VariableFeatureCompiler); vf-incompat = variable font whose masters' feature files
+    # differ (per-master feature compilation, tables merged by varLib)
+    path = rng.choice(["masters", "masters", "vf", "vf", "vf", "vf-incompat"])
     return {"kind": "ds", "fd": fd, "axes": axes, "masters": masters, "rules": rules, "langsys": ls, "lskind": lskind,
-            "scripts": scripts, "lib": rng.choice(["ufoLib2", "defcon"]), "fmt": rng.choice(["ttf", "ttf", "otf"])}
+            "scripts": scripts, "lib": rng.choice(["ufoLib2", "defcon"]), "fmt": rng.choice(["ttf", "ttf", "otf"]), "path": path}
 
 
 def corpus_ds():
@@ -126,7 +130,7 @@ def corpus_ds():
     g.append({"name": "acutecomb", "width": 0, "unicodes": [0x301], "anchors": [["_top", 0, 500], ["top", 0, 700]]})
     ls = [[DFLT, "dflt"], ["latn", "dflt"], ["grek", "dflt"]]
     out = []
-    for first in (".bold", ".cond"):
+    for first, path in ((".bold", "masters"), (".cond", "masters"), (".bold", "vf"), (".cond", "vf"), (".bold", "vf-incompat")):
         fd = {"glyphs": g, "kerning": [["a", "b", -20], ["alpha" + first, "beta" + first, -30]], "groups": {},
               "features": "".join("languagesystem %s %s;\n" % tuple(x) for x in ls)}
         out.append({"kind": "ds", "fd": fd, "axes": [["wght", "Weight", 400, 400, 700], ["wdth", "Width", 75, 100, 100]],
@@ -134,7 +138,7 @@ def corpus_ds():
                                 {"loc": {"Weight": 400, "Width": 75}, "dx": -40}],
                     "rules": [{"name": "bold", "conds": [["Weight", 600, 700]], "subs": [["alpha", "alpha.bold"], ["beta", "beta.bold"]]},
                               {"name": "cond", "conds": [["Width", 75, 80]], "subs": [["alpha", "alpha.cond"], ["beta", "beta.cond"]]}],
-                    "langsys": ls, "lskind": "corpus", "scripts": ["latn", "grek"], "lib": "ufoLib2", "fmt": "ttf"})
+                    "langsys": ls, "lskind": "corpus", "scripts": ["latn", "grek"], "lib": "ufoLib2", "fmt": "ttf", "path": path})
     return out
 
 
@@ -160,7 +164,13 @@ def make_designspace(case):
         ds.addAxis(ax); names.add(name)
     for i, m in enumerate(case["masters"]):
         src = SourceDescriptor()
-        src.font = build(_master_fd(case["fd"], m["dx"]), case["lib"])
+        mfd = _master_fd(case["fd"], m["dx"])
+        if case.get("path") == "vf-incompat" and i == 1:
+            # a feature file that differs from the default master's (GSUB only, inside one script)
+            b = [g["name"] for g in case["fd"]["glyphs"] if g["unicodes"] and g["width"]][:2]
+            if len(b) == 2:
+                mfd["features"] = (mfd["features"] or "") + "feature ss01 { sub %s by %s; } ss01;\n" % (b[0], b[1])
+        src.font = build(mfd, case["lib"])
         src.name = "master.%d" % i
         src.familyName, src.styleName = "C20 DS", "M%d" % i
         src.location = {k: v for k, v in m["loc"].items() if k in names}
@@ -186,37 +196,65 @@ def run_ds(case, glyph_scripts):
     logging.getLogger("ufo2ft").setLevel(logging.CRITICAL)
     logging.getLogger("fontTools").setLevel(logging.CRITICAL)
     fd = case["fd"]
-    cap = {}
+    cap = {"writers": []}
     orig = bc.BaseInterpolatableCompiler._pre_compile_designspace
+    from ufo2ft.featureWriters import baseFeatureWriter as bfw
+    orig_w = bfw.BaseFeatureWriter.extraSubstitutions
 
     def wrapped(self, doc):
         res = orig(self, doc)
         cap["extras"] = {k: set(v) for k, v in (self.extraSubstitutions or {}).items()}
         return res
+
+    def wrapped_w(self):
+        # what a feature writer actually receives (None when the feature compiler was not given the mapping)
+        res = orig_w(self)
+        comp = type(self.context.compiler).__name__
+        entry = [comp, canon_map((res or {}).items())]
+        if entry not in cap["writers"]:
+            cap["writers"].append(entry)
+        return res
     bc.BaseInterpolatableCompiler._pre_compile_designspace = wrapped
+    bfw.BaseFeatureWriter.extraSubstitutions = wrapped_w
+    path = case.get("path", "masters")
     err, fonts = None, []
     try:
         ds = make_designspace(case)
-        if case["fmt"] == "ttf":
-            res = ufo2ft.compileInterpolatableTTFsFromDS(ds)
+        if path == "masters":
+            if case["fmt"] == "ttf":
+                res = ufo2ft.compileInterpolatableTTFsFromDS(ds)
+            else:
+                res = ufo2ft.compileInterpolatableOTFsFromDS(ds)
+            fonts = [s.font for s in res.sources]
+        elif case["fmt"] == "ttf":
+            fonts = [ufo2ft.compileVariableTTF(ds)]
         else:
-            res = ufo2ft.compileInterpolatableOTFsFromDS(ds)
-        fonts = [s.font for s in res.sources]
+            fonts = [ufo2ft.compileVariableCFF2(ds)]
     except Exception as e:
         err = err_kind(e)
     finally:
         bc.BaseInterpolatableCompiler._pre_compile_designspace = orig
+        bfw.BaseFeatureWriter.extraSubstitutions = orig_w
     rules = [[list(s) for s in ru["subs"]] for ru in case["rules"]]
     reqs = []
     sources = {a for ru in rules for a, _ in ru}
     multi = any(len({b for ru in rules for a_, b in ru if a_ == a}) > 1 for a in sources)
     base_tags = ["ds", "ds:" + case["fmt"], "ds:ls:" + case["lskind"], "ds:rules:%d" % len(rules),
-                 "ds:glyph-in-several-rules" if multi else "ds:one-rule-per-glyph"]
-    # (1) the mapping handed to the feature writers
+                 "ds:glyph-in-several-rules" if multi else "ds:one-rule-per-glyph", "ds:path:" + path]
+    vfc = [w for w in cap["writers"] if w[0] == "VariableFeatureCompiler"]
+    if path != "masters" and err is None:
+        base_tags.append("ds:features-compiled-once" if vfc else "ds:features-per-master")
+    # (1) the mapping: on the compiler object, and as received by the feature writers of each feature compiler
     if "extras" in cap:
         obs = canon_map(cap["extras"].items())
-        reqs.append({"op": "extrasubs", "in": {"rules": rules}, "obs": obs, "tags": ["extrasubs"] + base_tags[4:],
-                     "nontrivial": multi})
+        reqs.append({"op": "extrasubs", "in": {"rules": rules, "path": "masters"}, "obs": obs,
+                     "tags": ["extrasubs", "extrasubs:compiler-object"] + base_tags[4:5], "nontrivial": multi})
+    for comp, wobs in cap["writers"]:
+        reqs.append({"op": "extrasubs", "in": {"rules": rules, "path": "variable" if comp == "VariableFeatureCompiler" else "masters"},
+                     "obs": wobs, "tags": ["extrasubs", "extrasubs:writers:" + comp] + base_tags[4:5], "nontrivial": multi})
+    if "extras" in cap or cap["writers"]:
+        obs = cap["writers"][-1][1] if cap["writers"] else canon_map(cap["extras"].items())
+        extras_py = {k: set(v) for k, v in obs}
         # (2) the classification step on that mapping (function level, gsub=None)
         gs = glyph_scripts(fd)
         cmap = {g["unicodes"][0]: g["name"] for g in fd["glyphs"] if g["unicodes"]}
@@ -226,7 +264,7 @@ def run_ds(case, glyph_scripts):
             for t in props[u] or []:
                 sets0.setdefault(t, []).append(n)
         try:
-            got = classifyGlyphs(lambda u: props[u], cmap, None, cap["extras"])
+            got = classifyGlyphs(lambda u: props[u], cmap, None, extras_py)
             cobs = canon_map(got.items())
         except Exception as e:
             cobs = [["!" + err_kind(e), []]]
